@@ -729,6 +729,31 @@ def main(argv):
 
     C.differential(res, PROP, "c11", cases, to_coq, REQ, "c11_mismatches", "c11_model", oracle_np,
                    shrink=shrink, nontrivial=nontrivial, signature=signature, theorems_note=THEOREMS, shards=16)
+    # a peer with an announced identity sends several messages and leaves; the application reads the backlog only after
+    # the ROUTER has processed the detach: whatever is still delivered must carry the announced identity, never a placeholder
+    late = [{"k": "late", "rid": {"bytes": list(b"alice")}, "n": 8, "settle_ms": 700},
+            {"k": "late", "rid": {"len": 255, "seed": 9}, "n": 5, "settle_ms": 700}]
+    lobs, llog = C.run_harness("c11", late, PROP, tag="late")
+    if lobs is None or len(lobs) != len(late):
+        res.obligation(False, "late-drain scenarios could not run: " + str(llog)[-500:])
+    else:
+        for c, o in zip(late, lobs):
+            res.evaluations += 1
+            r = o["rows"][0]
+            if r[0] != 40:
+                res.notes.append("late-drain scenario did not run: %s" % o["rows"])
+                continue
+            res.count("late:%d read after the detach (%d with the announced identity)" % (r[2], r[3]))
+            res.nontrivial.add("late:%d" % len(res.nontrivial))
+            bad = None
+            if not r[1]:
+                bad = "the first message of a peer that announced an identity was not reported under it"
+            elif r[4]:
+                bad = ("%d message(s) of the departed peer were delivered under a first frame that is not the identity it announced "
+                       "(first bytes %s - a placeholder?)" % (r[4], o.get("other_identity")))
+            if bad:
+                res.violation({"property": PROP, "kind": "implementation violates property oracle", "what": bad, "case": c,
+                               "impl_obs": o, "harness": "c11"}, found_input=True)
     sus = {}
     for name, msgs in probes_hit.items():
         fired = [m for m in msgs if m]
